@@ -3,6 +3,7 @@ package main
 // Path exploration: stateless DFS by re-execution, decision logs, solver sessions.
 
 import (
+	"runtime/debug"
 	"fmt"
 	"os"
 	"sort"
@@ -992,6 +993,9 @@ func (h *HarnessRun) runPath(sv *Solver, prefix []Decision) {
 				default:
 					outcome = "engine-error"
 					msg = fmt.Sprintf("%v at %s", e, r.curPos())
+					if os.Getenv("GOSYM_STACK") != "" {
+						fmt.Fprintf(os.Stderr, "[engine-error] %v\n%s\n", e, debug.Stack())
+					}
 					if debugEngine {
 						panic(e)
 					}
